@@ -81,6 +81,9 @@ def check(run):
                   # require is C07.2 / C01.3 chain-predicate)
                   allowed=[(r"NetworkFilterList::check$", "find")], minimum=4))
         run.guard("C01.1.token-source", cfg, lambda: rule_store(run, F, cfg))
+        from . import C07 as _C07tg
+        btg = run.borrow("C07", why="a tagged rule matches exactly when its tag is enabled: every list that can hold tagged rules (importants, exceptions, csp, filters_tagged) is probed with the enabled set, not with the empty one")
+        run.guard("C01.via.C07.1.tag-gate", cfg, lambda: _C07tg.rule_tag_gate(btg, F, cfg))
         run.guard("C01.1.token-source", cfg + "/probe", lambda: rule_probe(run, F, cfg))
         run.guard("C01.3.exhaustive-probing", cfg, lambda: rule_exhaustive(run, F, cfg))
         run.guard("C01.4.token-boundary", cfg, lambda: rule_boundary(run, F, cfg))
